@@ -209,6 +209,40 @@ def apply_op(s, c):
         t.M = [[s.M[p[i]][q[j]] for j in range(s.cols)] for i in range(s.rows)]
         t.pat = {(i, j) for i in range(s.rows) for j in range(s.cols) if (p[i], q[j]) in s.pat}
         return t, None
+    if op == "trs":
+        if s.fmt not in ("csr", "dense") and not (s.fmt == "bcsr" and s.bh == s.bw):
+            return s, "bad"
+        return transpose_state(s), None
+    if op == "trt":
+        k = c.nat()
+        if s.fmt in ("csr", "dense") or (s.fmt == "bcsr" and s.bh == s.bw):
+            return (transpose_state(s), None) if k <= 4 else (s, "bad")
+        if s.fmt == "bcsr":
+            return (transpose_state(s), None) if k in (0, 2, 3) else (s, "bad")
+        return s, "bad"
+    if op == "convs":
+        return s.copy(), "defect:D8:a.convert(a) destroys the container (Container::assign has no self check)"
+    if op == "convt":
+        k, f = c.nat(), c.tok()
+        if f not in ("csr", "banded", "cscr", "dense", "bcsr"):
+            return s, "bad"
+        if f == s.fmt:
+            return (s.copy(), None) if k in (0, 1, 3, 4) else (s, "bad")
+        if k not in (0, 1, 3) or (f, s.fmt) not in (("csr", "banded"), ("csr", "bcsr"), ("csr", "cscr"), ("banded", "csr"),
+                                                     ("cscr", "csr")):
+            return s, "bad"
+        return apply_op(s, Tk({"csr": "tocsr", "banded": "tobanded", "cscr": "tocscr"}[f]))
+    if op == "clones":
+        m = c.nat()
+        return (s.copy(), "abort:self-clone (XABORTM)") if m <= 3 else (s, "bad")
+    if op == "clonet":
+        k, m = c.nat(), c.nat()
+        return (s.copy(), None) if k in (0, 1, 3, 4) and m <= 3 else (s, "bad")
+    if op == "copys":
+        return s.copy(), None
+    if op == "copyt":
+        k = c.nat()
+        return (s.copy(), None) if k in (1, 2, 4) else (s, "bad")
     if op == "it":
         return s.copy(), None
     if op == "dt":
@@ -363,6 +397,31 @@ def gen_op(rng, s):
         ops = ["tr", "tr", "tri", "clone", "it", "dt"]
     else:
         ops = ["tocsr", "tocsr", "tr", "tr", "clone", "layout", "it"]
+    if rng.random() < 0.3:
+        # the two-argument members with an aliased or pre-existing target
+        alias = ["clonet", "clonet", "copyt", "copys", "convt-same", "convt-same"]
+        if f in ("csr", "dense", "bcsr"):
+            alias += ["trs", "trs", "trt", "trt", "trt", "trt"]
+        if f in ("banded", "bcsr", "cscr"):
+            alias += ["convt-csr", "convt-csr"]
+        if f == "csr":
+            alias += ["convt-banded", "convt-cscr"]
+        if rng.random() < 0.03:
+            alias += ["convs", "clones"]
+        a = rng.choice(alias)
+        if a == "trt":
+            return "trt %d" % rng.randrange(5)
+        if a == "clonet":
+            return "clonet %d %d" % (rng.choice([0, 1, 3, 4]), rng.randrange(4))
+        if a == "clones":
+            return "clones %d" % rng.randrange(4)
+        if a == "copyt":
+            return "copyt %d" % rng.choice([1, 2, 4])
+        if a == "convt-same":
+            return "convt %d %s" % (rng.choice([0, 1, 3, 4]), f)
+        if a.startswith("convt-"):
+            return "convt %d %s" % (rng.choice([0, 1, 3]), a[6:])
+        return a
     op = rng.choice(ops)
     if op == "clone":
         return "clone %d" % rng.randrange(4)
@@ -438,6 +497,20 @@ CORPUS += [
     "64 csr 3 3 4 0 1 2 2 2 1 2 2 5/1 7/1 2 tocscr tocsr",
     "64 cscr 3 3 0 0 0 0 1 tocsr",
     "32 csr 2 3 0 0 0 1 tobanded",
+    # aliased / pre-existing targets (same object, shallow clone, same / transposed / other shape)
+    "32 dense 2 3 6 1/1 2/1 3/1 4/1 5/1 6/1 6 trs trs trt 1 trt 2 trt 3 trt 4",
+    "64 dense 3 3 9 1/1 2/1 3/1 4/1 5/1 6/1 7/1 8/1 9/1 5 trt 4 trs trt 2 trt 0 trt 1",
+    "32 dense 1 4 4 1/1 2/1 3/1 4/1 3 trt 3 trt 3 trt 2",
+    "32 csr 2 3 3 0 2 3 3 0 2 1 3 1/1 2/1 3/1 7 trs trt 0 trt 1 trt 2 trt 3 trt 4 copyt 2",
+    "32 csr 2 3 3 0 2 3 3 0 2 1 3 1/1 2/1 3/1 6 convt 4 csr convt 1 csr convt 3 csr convt 1 banded convt 3 csr convt 1 cscr",
+    "32 csr 2 3 3 0 2 3 3 0 2 1 3 1/1 2/1 3/1 6 clonet 4 3 clonet 3 0 clonet 1 2 clonet 0 1 copys copyt 4",
+    "32 bcsr 2 2 1 1 2 0 1 1 0 4 1/1 2/1 3/1 4/1 4 trs trt 4 trt 2 trt 1",
+    "32 bcsr 2 3 1 2 2 0 1 1 1 6 1/1 2/1 3/1 4/1 5/1 6/1 3 trt 2 trt 3 trt 0",
+    "32 banded 3 4 2 1 3 6 1/1 2/1 3/1 4/1 5/1 6/1 4 convt 1 csr convt 3 banded convt 4 banded copyt 1",
+    "32 csr 2 3 0 0 0 4 trs trt 1 trt 3 convt 4 csr",
+    "32 csr 2 3 3 0 2 3 3 0 2 1 3 1/1 2/1 3/1 1 clones 2",      # specified abort (self-clone)
+    "32 csr 2 3 3 0 2 3 3 0 2 1 3 1/1 2/1 3/1 1 convs",          # c02-edge:D8
+    "32 dense 2 2 4 1/1 2/1 3/1 4/1 1 convs",
 ]
 
 
@@ -468,12 +541,26 @@ def check_cols(rp, ci, n_cols, what):
 
 
 def parse_segment(seg):
-    """-> dict(K=.., fmt, rows, cols (scalar dims), bh, bw, raw matrix from arrays, D matrix, has_val, has_idx, err)"""
+    """'[K a b c d] [S <dump of the source afterwards>] <dump>' -> dict of the (target) dump + K + src (dict or None)"""
     c = Tk(seg)
-    r = {"K": None, "err": None, "bh": 1, "bw": 1}
+    K = None
     if c.peek() == "K":
         c.tok()
-        r["K"] = (c.nat(), c.nat(), c.nat(), c.nat())
+        K = (c.nat(), c.nat(), c.nat(), c.nat())
+    src = None
+    if c.peek() == "S":
+        c.tok()
+        src = parse_dump(c)
+    r = parse_dump(c)
+    r["K"], r["src"] = K, src
+    if c.p != len(c.t):
+        raise ValueError("trailing tokens in segment")
+    return r
+
+
+def parse_dump(c):
+    """-> dict(fmt, rows, cols (scalar dims), bh, bw, raw matrix from arrays, D matrix, has_val, has_idx, err)"""
+    r = {"err": None, "bh": 1, "bw": 1}
     fmt = c.tok()
     r["fmt"] = fmt
     if fmt == "csr":
@@ -568,8 +655,6 @@ def parse_segment(seg):
         raise ValueError("D expected")
     d = [c.fr() for _ in range(rows * cols)]
     r["D"] = [d[i * cols:(i + 1) * cols] for i in range(rows)]
-    if c.p != len(c.t):
-        raise ValueError("trailing tokens in segment")
     return r
 
 
@@ -583,6 +668,26 @@ def expected_K(opname, mode, seg):
     if mode in (1, 2):
         return (0, int(hi), 0, 0)
     return (0, 0, 0, 0)
+
+
+TARGET_OPS = ("trt", "convt", "clonet", "copyt")
+
+
+def judge_dump(s, g):
+    """one reported container against the expected textbook state"""
+    if g["fmt"] != s.fmt:
+        return "format %s, expected %s" % (g["fmt"], s.fmt)
+    if (g["rows"], g["cols"]) != (s.rows, s.cols):
+        return "dimensions %dx%d, expected %dx%d" % (g["rows"], g["cols"], s.rows, s.cols)
+    if s.fmt == "bcsr" and (g["bh"], g["bw"]) != (s.bh, s.bw):
+        return "block size %dx%d, expected %dx%d" % (g["bh"], g["bw"], s.bh, s.bw)
+    if g["err"]:
+        return "invalid layout: %s" % g["err"]
+    if g["raw"] != s.M:
+        return "the raw arrays represent a different matrix"
+    if g["D"] != s.M:
+        return "operator()(i,j) shows a different matrix"
+    return None
 
 
 def oracle(case, out):
@@ -613,25 +718,27 @@ def oracle(case, out):
     if len(segs) != len(states):
         return "%d output segments for %d operations" % (len(segs), len(states) - 1)
     for idx, (s, g) in enumerate(zip(states, segs)):
-        where = "initial matrix" if idx == 0 else "after op %d (%s)" % (idx, " ".join(ops[idx - 1][:2]))
-        if g["fmt"] != s.fmt:
-            return "%s: format %s, expected %s" % (where, g["fmt"], s.fmt)
-        if (g["rows"], g["cols"]) != (s.rows, s.cols):
-            return "%s: dimensions %dx%d, expected %dx%d" % (where, g["rows"], g["cols"], s.rows, s.cols)
-        if s.fmt == "bcsr" and (g["bh"], g["bw"]) != (s.bh, s.bw):
-            return "%s: block size %dx%d, expected %dx%d" % (where, g["bh"], g["bw"], s.bh, s.bw)
-        if g["err"]:
-            return "%s: invalid layout: %s" % (where, g["err"])
-        if g["raw"] != s.M:
-            return "%s: the raw arrays represent a different matrix" % where
-        if g["D"] != s.M:
-            return "%s: operator()(i,j) shows a different matrix" % where
+        where = "initial matrix" if idx == 0 else "after op %d (%s)" % (idx, " ".join(ops[idx - 1][:3]))
+        e = judge_dump(s, g)
+        if e:
+            return "%s: %s" % (where, e)
         if idx > 0:
             o = ops[idx - 1]
-            if o[0] in ("clone", "layout"):
+            if o[0] in TARGET_OPS:
+                # the source of a two-argument member call must still represent its matrix afterwards; only a target
+                # that is a shallow clone of the source (documented to share the data arrays) may show the result
+                if g["src"] is None:
+                    return "%s: the source was not reported" % where
+                allowed = [states[idx - 1]] + ([s] if o[1] == "4" else [])
+                errs = [judge_dump(a, g["src"]) for a in allowed]
+                if all(errs):
+                    return "%s: SOURCE afterwards: %s" % (where, errs[0])
+            elif g["src"] is not None:
+                return "%s: unexpected source report" % where
+            if o[0] in ("clone", "layout", "clonet"):
                 if g["K"] is None:
                     return "%s: no aliasing observation" % where
-                exp = expected_K(o[0], int(o[1]) if o[0] == "clone" else 1, g)
+                exp = expected_K(o[0], int(o[2]) if o[0] == "clonet" else int(o[1]) if o[0] == "clone" else 1, g)
                 if g["K"] != exp:
                     return "%s: aliasing flags (val shared, idx shared, src->clone, clone->src) = %s, expected %s" % (
                         where, g["K"], exp)
@@ -657,7 +764,8 @@ def describe(case):
     s0 = states[0]
     keys = ["it:%d" % it, "init:" + s0.fmt, "len:%d" % len(ops)]
     for o in ops:
-        keys.append("op:" + o[0] + ((":" + CLONE_NAMES.get(int(o[1]), "?")) if o[0] == "clone" else ""))
+        keys.append("op:" + o[0] + ((":" + CLONE_NAMES.get(int(o[1]), "?")) if o[0] == "clone" else "")
+                    + ((":kind%s" % o[1]) if o[0] in TARGET_OPS else ""))
     if s0.fmt != "dense" and s0.nnz() == 0:
         keys.append("entry-free")
     if s0.fmt in ("csr", "cscr", "bcsr") and s0.nnz() > 0 and not all(s0.row_has()):
@@ -695,7 +803,7 @@ def model_filter(case):
         it, states, ops, tag, k = simulate(case)
     except Exception:
         return True
-    return not (tag is not None and tag.startswith("defect:") and tag.split(":")[1] in ("D1", "D3", "D5"))
+    return not (tag is not None and tag.startswith("defect:") and tag.split(":")[1] in ("D1", "D3", "D5", "D8"))
 
 
 def canon(out):
@@ -728,12 +836,16 @@ def main(argv):
     stats_rule = ("random matrices in CSR / CSCR / banded / BCSR(2x2,2x3,3x2) / dense form (dims 0..6, thorough ..14; entry-free, "
                   "single entry, empty rows in leading/middle/trailing position, rectangular, all band sets) followed by "
                   "chains of 0..12 operations (format conversion, the 4 clone modes, layout/graph rebuild, transpose in and "
-                  "out of place, row/column permutation, index- and data-type round trips); non-trivial = chain length >= 2 "
+                  "out of place, row/column permutation, index- and data-type round trips, and the two-argument members "
+                  "transpose/convert/clone/copy called on the object itself or on a pre-existing target: fresh, same shape, "
+                  "transposed shape, other shape, shallow clone of the source - source and target are both judged); non-trivial = chain length >= 2 "
                   "or a format change or an entry-free matrix")
     rc = vlib.run_pipeline(PROP, args.tier, args.seed, lean, [st], t0, assumptions=[
         "Index modelled as unbounded Nat (no 32/64-bit overflow at the sizes FEAT can allocate)",
         "data-type round trip (Q -> double -> float -> Q) exercised on float-representable values only",
-        "input classes of the open known findings c02-edge:D1/D3/D5/D6/D7 are generated and judged; where the real "
-        "code crashes (D1, D3, D5) the Lean model shows the intended result and is not compared"],
+        "input classes of the open known findings c02-edge:D1/D3/D5/D6/D7/D8 are generated and judged; where the real "
+        "code crashes (D1, D3, D5, D8) the Lean model shows the intended result and is not compared",
+        "a target that is a shallow clone of the source may show the result in the source as well (documented sharing "
+        "of the data arrays); every other source must be unchanged after a two-argument member call"],
         extra_cov={"rule": stats_rule})
     return rc
